@@ -30,7 +30,7 @@ def one(sid):
 
 
 # checks with translators share lean/AdeptModel/Generated: their seeds run one after the other (one lane), the rest in parallel
-TR = ("C01", "C04", "C09", "C12", "C14", "C17")
+TR = ("C01", "C04", "C05", "C09", "C12", "C14", "C17")
 serial = [s for s in seeds if s[:3] in TR]
 par = [s for s in seeds if s[:3] not in TR]
 
